@@ -136,6 +136,7 @@ class Client:
         self.prev_interrupted_output = False
         self.recovering = False
         self.sharer_refit_since_fit = False
+        self.tolerant = False
         self.unspec_steps = 0
 
     @property
@@ -262,7 +263,11 @@ class Sim:
                 and op in DATA_OPS
             )
             if same:
+                # the sharer refitted the scorer on the same values, but possibly laid
+                # out differently in memory (X.values, a copy ...): float outputs of cj are
+                # judged to rounding only until its own next fit
                 self.probe("sharer_ran_on_same_data")
+                cj.tolerant = True
             else:
                 cj.amb = True
 
@@ -685,6 +690,9 @@ class Sim:
         self.stats["compared_by_op"][op] = self.stats["compared_by_op"].get(op, 0) + 1
         ev["cmp"] = "eq"
         ok = res[:2] == r2[:2]
+        if not ok and cl.tolerant and res[0] == "ok" and r2[0] == "ok" and close_enough(res[2], r2[2]):
+            ok = True
+            self.stats["tolerant_pass"] += 1
         if not ok and isinstance(lineage, list) and len(lineage) > 1 and res[0] == "ok" and r2[0] == "ok":
             if close_enough(res[2], r2[2]):
                 ok = True
@@ -737,7 +745,7 @@ class Sim:
         if res[0] == "exc":
             self.probe("compared_exception_outcome")
         # further construction routes
-        routes = self.cfg.get("routes", [])
+        routes = self.cfg.get("routes", []) if not cl.tolerant else []
         for route in routes:
             if route == "clone":
                 try:
@@ -764,7 +772,7 @@ class Sim:
                 ev["cmp"] = "NE"
                 self.violate("output_mismatch", cl, op, i_step, fkind, {"history": describe(res), "fresh": describe(r3), "spec": cur, "route": route})
                 return
-        if self.pristine is not None and self.cfg.get("pristine"):
+        if self.pristine is not None and self.cfg.get("pristine") and not cl.tolerant:
             pr = self.pristine.ask({"spec": cur, "lineage": lineage, "op": op, "arg": arg})
             if pr["status"] == "done" and pr["res"][0] != "hang":
                 self.probe("pristine_compared")
@@ -807,6 +815,7 @@ class Sim:
             cl.fitspec = cur
             cl.stale = False
             cl.amb = False
+            cl.tolerant = False
             cl.sharer_refit_since_fit = False
             if was_unspec:
                 cl.recovering = True
